@@ -188,7 +188,7 @@ def run(tier):
         sessions.append({"id": len(sessions), "ops": ops})
         meta.append(("uses", di))
     # every position of a subset of documents x {definition, hover, completion}
-    sweep_docs = docs[:: (40 if q else 6)]
+    sweep_docs = docs[:: (40 if q else 3)]
     for di0, (text, lines, nl, uses, sites) in enumerate(sweep_docs):
         for method in ("textDocument/definition", "textDocument/hover", "textDocument/completion"):
             ops = [{"op": "open", "uri": URI, "text": text}]
@@ -208,7 +208,7 @@ def run(tier):
              "chg_empty": {"op": "change", "uri": URI, "text": ""}, "close": {"op": "close", "uri": URI}}
     probe = [{"op": "req", "method": m, "params": {"textDocument": {"uri": URI}, "position": {"line": 3, "character": 25}}}
              for m in ("textDocument/definition", "textDocument/hover", "textDocument/completion")]
-    for n in (1, 2, 3):
+    for n in ((1, 2, 3) if q else (1, 2, 3, 4)):
         for seq in itertools.product(steps, repeat=n):
             ops = []
             for s_ in seq:
@@ -381,7 +381,7 @@ def run(tier):
                 "placed BEFORE the identifier on the same line; go-to-definition at the start and end of every use must land on an "
                 "identifier `x` (sliced by UTF-16) bound in the scope the executed program read; every (line, character) incl. one "
                 "past each line end and past the last line x {definition, hover, completion} on a subset of documents; all sequences "
-                "of <=3 notifications from {open valid/invalid, change valid/invalid/empty, close} with the three requests after every "
+                "of <=3 (thorough: 4) notifications from {open valid/invalid, change valid/invalid/empty, close} with the three requests after every "
                 "step; a two-document load case. Every request gets exactly one response within 10 s, the server thread never "
                 "panics, every Range in every response and in publishDiagnostics is inside the current document under UTF-16. "
                 "distinct_nontrivial = judged (document, use) pairs",
